@@ -3,6 +3,8 @@ CONSTANTS
   MaxChild = 0
   MaxPost = 0
   MaxTotal = 0
+  MinPre = 0
+  MinTotal = 0
   Leaky = FALSE
   Alphabet <- AllCmds
   Kinds <- AllKinds
